@@ -2,12 +2,13 @@
       - the typed readers of [FontInfoV1] / [FontInfoV2] (serde, deny_unknown_fields),
       - [FontInfo::from_file], arms V1 and V2 (src/fontinfo.rs): the two struct literals, field
         by field, with their numeric conversions and the three match tables,
-      - the part of [FontInfo::validate] that can fire on a converted info,
+      - [FontInfo::validate]: C13's model [FontInfo.fi_validate] on the projection of the info,
       - [upconvert_ufov1_robofab_data] (src/upconversion.rs) and its call site in
         [Font::load_impl] (src/font.rs), format version set to 3.
     Definitions only.  The specification side is Model/SpecTables.v; that the two agree for all
     inputs is proved in Proofs/UpconvP.v. *)
 Require Export Norad.Model.SpecTables.
+Require Norad.Model.FontInfo.
 From Coq Require Import Ascii.
 Open Scope string_scope.
 Open Scope Z_scope.
@@ -389,79 +390,77 @@ Definition conv_v1 (r : kv) : result kv cerr :=
     ("year", copy (get r "year"))
   ].
 
-(** ** [FontInfo::validate], restricted to the attributes a legacy conversion can set
-    (no gasp records, guidelines or WOFF data), in the order of the code *)
+(** ** [FontInfo::validate] on a converted info
+
+    The validator is C13's model [FontInfo.fi_validate] (Model/FontInfo.v, characterised by
+    [C13_validate_iff_spec]), applied to the PROJECTION of the key-value info onto C13's record
+    of rule-relevant fields.  What the projection keeps and forgets:
+      - kept: openTypeHeadCreated (as bytes), openTypeOS2Selection, openTypeOS2FamilyClass (as
+        unsigned numbers -- exact on typed infos, see [project_exact]), and the LENGTHS of the six
+        PostScript lists postscript{Blue,OtherBlues,FamilyBlues,FamilyOtherBlues}Values /
+        postscriptStemSnap{H,V};
+      - forgotten: the values of the members of those six lists (every member becomes 0: the
+        rules look at lengths only), and every other attribute (no rule reads them);
+      - set to [None]: openTypeGaspRangeRecords, guidelines and the five WOFF attributes the rules
+        read -- no legacy conversion can set them ([load_complex_absent] proves that they are
+        absent from every loaded legacy info, so [None] is exact there). *)
 Inductive kerr : Type :=
 | KConv (e : cerr)                                   (* UnknownFontStyle / MsCharSet / WidthClass *)
 | KBadDate                                           (* InvalidOpenTypeHeadCreatedDate *)
 | KSelection                                         (* DisallowedSelectionBits *)
 | KFamilyClass                                       (* InvalidOs2FamilyClass *)
 | KListLen (name : string) (max len : Z)             (* InvalidPostscriptListLength *)
-| KListPairs (name : string).                        (* PostscriptListMustBePairs *)
+| KListPairs (name : string)                         (* PostscriptListMustBePairs *)
+| KOther (name : string).                            (* a rule no converted info can trip *)
 
-Definition is_digit (a : ascii) : bool :=
-  let n := N_of_ascii a in (48 <=? n)%N && (n <=? 57)%N.
-Definition date_char_ok (a : ascii) : bool :=
-  is_digit a || Ascii.eqb a " " || Ascii.eqb a "/" || Ascii.eqb a ":".
-Definition digit_val (a : ascii) : Z := Z.of_N (N_of_ascii a) - 48.
+Definition bytes_of (s : string) : list N := map N_of_ascii (list_ascii_of_string s).
 
-(** "YYYY/MM/DD HH:MM:SS": 19 bytes, only digits blank / : ; the slices parse as numbers,
-    month in 1..12, day in 1..31, hour < 24, minute < 60, second < 60 *)
-Definition date_ok (s : string) : bool :=
-  match list_ascii_of_string s with
-  | [y1; y2; y3; y4; s1; m1; m2; s2; d1; d2; s3; h1; h2; s4; n1; n2; s5; c1; c2] =>
-      forallb date_char_ok (list_ascii_of_string s)
-      && forallb is_digit [y1; y2; y3; y4; m1; m2; d1; d2; h1; h2; n1; n2; c1; c2]
-      && Ascii.eqb s1 "/" && Ascii.eqb s2 "/" && Ascii.eqb s3 " "
-      && Ascii.eqb s4 ":" && Ascii.eqb s5 ":"
-      && (1 <=? 10 * digit_val m1 + digit_val m2) && (10 * digit_val m1 + digit_val m2 <=? 12)
-      && (1 <=? 10 * digit_val d1 + digit_val d2) && (10 * digit_val d1 + digit_val d2 <=? 31)
-      && (10 * digit_val h1 + digit_val h2 <? 24)
-      && (10 * digit_val n1 + digit_val n2 <? 60)
-      && (10 * digit_val c1 + digit_val c2 <? 60)
-  | _ => false
-  end.
-
-Definition zmem (z : Z) (l : list Z) : bool := existsb (Z.eqb z) l.
-
-Definition check_ps_list (i : kv) (key : string) (max : Z) (pairs : bool) : option kerr :=
-  match get i key with
-  | Some (VNums l) =>
-      let n := Z.of_nat (List.length l) in
-      if max <? n then Some (KListLen key max n)
-      else if pairs && negb (Z.even n) then Some (KListPairs key)
-      else None
+Definition proj_list (i : kv) (k : string) : option (list Z) :=
+  match get i k with
+  | Some (VNums l) => Some (map (fun _ => 0) l)
   | _ => None
   end.
 
-Fixpoint first_err (l : list (option kerr)) : option kerr :=
-  match l with
-  | [] => None
-  | Some e :: _ => Some e
-  | None :: l' => first_err l'
+Definition project (i : kv) : FontInfo.info :=
+  {| FontInfo.i_date :=
+       match get i "openTypeHeadCreated" with Some (VStr s) => Some (bytes_of s) | _ => None end;
+     FontInfo.i_gasp := None;
+     FontInfo.i_guides := None;
+     FontInfo.i_selection :=
+       match get i "openTypeOS2Selection" with Some (VInts l) => Some (map Z.to_N l) | _ => None end;
+     FontInfo.i_class :=
+       match get i "openTypeOS2FamilyClass" with
+       | Some (VInts [a; b]) => Some (Z.to_N a, Z.to_N b)
+       | _ => None
+       end;
+     FontInfo.i_blue := proj_list i "postscriptBlueValues";
+     FontInfo.i_oblue := proj_list i "postscriptOtherBlues";
+     FontInfo.i_fblue := proj_list i "postscriptFamilyBlues";
+     FontInfo.i_foblue := proj_list i "postscriptFamilyOtherBlues";
+     FontInfo.i_stemh := proj_list i "postscriptStemSnapH";
+     FontInfo.i_stemv := proj_list i "postscriptStemSnapV";
+     FontInfo.i_wext := None;
+     FontInfo.i_wcredits := None;
+     FontInfo.i_wcopyright := None;
+     FontInfo.i_wdescr := None;
+     FontInfo.i_wtrade := None |}.
+
+Definition kerr_of (e : FontInfo.fi_err) : kerr :=
+  match e with
+  | FontInfo.EDate => KBadDate
+  | FontInfo.ESelection => KSelection
+  | FontInfo.EClass => KFamilyClass
+  | FontInfo.EListLen name max len => KListLen name (Z.of_nat max) (Z.of_nat len)
+  | FontInfo.EPairs name => KListPairs name
+  | other => KOther (FontInfo.err_name other)
   end.
 
-Definition validate (i : kv) : option kerr :=
-  first_err
-    [ match get i "openTypeHeadCreated" with
-      | Some (VStr s) => if date_ok s then None else Some KBadDate
-      | _ => None
-      end;
-      match get i "openTypeOS2Selection" with
-      | Some (VInts l) => if zmem 0 l || zmem 5 l || zmem 6 l then Some KSelection else None
-      | _ => None
-      end;
-      match get i "openTypeOS2FamilyClass" with
-      | Some (VInts [a; b]) =>
-          if (0 <=? a) && (a <=? 14) && (0 <=? b) && (b <=? 15) then None else Some KFamilyClass
-      | _ => None
-      end;
-      check_ps_list i "postscriptBlueValues" 14 true;
-      check_ps_list i "postscriptOtherBlues" 10 true;
-      check_ps_list i "postscriptFamilyBlues" 14 true;
-      check_ps_list i "postscriptFamilyOtherBlues" 10 true;
-      check_ps_list i "postscriptStemSnapH" 12 false;
-      check_ps_list i "postscriptStemSnapV" 12 false ].
+Definition validate (i : kv) : result unit kerr :=
+  match FontInfo.fi_validate (project i) with
+  | Ok _ => Ok tt
+  | Err e => Err (kerr_of e)
+  | Panic s => Panic s
+  end.
 
 (** ** [FontInfo::from_file] for the two legacy versions, parametrised by the converter so that
     the specification's table-driven converter can be plugged into the same pipeline *)
@@ -483,8 +482,9 @@ Definition from_file_with (conv : Z -> kv -> result kv cerr) (version : Z) (raw 
       | Panic s => Panic s
       | Ok i =>
           match validate i with
-          | Some e => Err (EFontInfoUpconv e)
-          | None => Ok i
+          | Err e => Err (EFontInfoUpconv e)
+          | Panic s => Panic s
+          | Ok _ => Ok i
           end
       end
   end.
@@ -651,8 +651,9 @@ Definition robofab_with (hints : list (string * hval) -> kv -> kv)
       | Some h =>
           let info' := hints h info in
           match validate info' with
-          | Some e => Err (EV1Lib e)
-          | None => step info'
+          | Err e => Err (EV1Lib e)
+          | Panic s => Panic s
+          | Ok _ => step info'
           end
       | None => step info
       end
